@@ -456,6 +456,11 @@ pub struct SimRing {
     /// enter becomes the submitter, `io_uring_enter` from any other thread fails with EEXIST.
     pub enforce_single: bool,
     pub submitter: Option<i64>,
+    /// SQPOLL, opt-in (`SQPOLL_EAGER`): a deterministic kernel thread. It takes everything that is
+    /// published at every `io_uring_enter` (as if it had just run), goes idle (NEED_WAKEUP) whenever
+    /// nothing is left, and while idle only runs again for an enter that carries SQ_WAKEUP. The
+    /// `Enter` event then reports the number it took as `to_submit` (a10 itself passes 0).
+    pub sqpoll_eager: bool,
 }
 
 unsafe impl Send for SimRing {}
@@ -1228,6 +1233,7 @@ fn sim_setup(entries: u32, p: *mut Params) -> i64 {
         sqpoll_asleep: false,
         enforce_single: ENFORCE_SINGLE_ISSUER.load(Ordering::SeqCst),
         submitter: None,
+        sqpoll_eager: SQPOLL_EAGER.load(Ordering::SeqCst),
     };
     with_sim(|s| {
         s.rings.insert(fd, ring);
@@ -1286,6 +1292,7 @@ pub const SOCKET_OP_GETSOCKNAME: u32 = 5;
 /// ordinary in-flight submission that completes when the script posts for it
 /// Rings created while this is set enforce IORING_SETUP_SINGLE_ISSUER (see `SimRing::enforce_single`).
 pub static ENFORCE_SINGLE_ISSUER: AtomicBool = AtomicBool::new(false);
+pub static SQPOLL_EAGER: AtomicBool = AtomicBool::new(false);
 
 /// (the `life` component); closes made by dropping an `AsyncFd` stay synchronous.
 pub static DEFER_CLOSE_OPS: AtomicBool = AtomicBool::new(false);
@@ -1989,6 +1996,11 @@ fn sim_enter(fd: i32, to_submit: u32, min_complete: u32, flags: u32, arg: usize)
         let script = ring.enter_scripts.pop_front().unwrap_or_default();
         let mut consumed = Vec::new();
         let mut blocked = false;
+        let mut reported: Option<u32> = None;
+        if ring.flags & SETUP_SQPOLL != 0 && ring.sqpoll_eager {
+            // (also for a call that fails: what the caller left for the kernel thread)
+            reported = Some(ring.sq_pending());
+        }
         let ret: i64 = 'ret: {
             if ring.closed {
                 break 'ret -(libc::EBADF as i64);
@@ -2009,7 +2021,16 @@ fn sim_enter(fd: i32, to_submit: u32, min_complete: u32, flags: u32, arg: usize)
             }
             ring.scribble_free_slots();
             let mut n = to_submit.min(ring.sq_pending());
-            if ring.flags & SETUP_SQPOLL != 0 {
+            if ring.flags & SETUP_SQPOLL != 0 && ring.sqpoll_eager {
+                if ring.sqpoll_asleep && flags & ENTER_SQ_WAKEUP == 0 {
+                    n = 0;
+                } else {
+                    ring.sqpoll_asleep = false;
+                    ring.set_sq_flags(0);
+                    n = ring.sq_pending();
+                }
+                reported = Some(n);
+            } else if ring.flags & SETUP_SQPOLL != 0 {
                 n = 0;
                 if ring.sqpoll_asleep && flags & ENTER_SQ_WAKEUP != 0 {
                     // the woken kernel thread runs at once and takes everything published
@@ -2022,6 +2043,9 @@ fn sim_enter(fd: i32, to_submit: u32, min_complete: u32, flags: u32, arg: usize)
                 n = n.min(m);
             }
             consumed = ring.consume(n, events);
+            if ring.sqpoll_eager {
+                ring.sqpoll_sleep();
+            }
             // Wake messages are executed at once.
             let mut i = 0;
             while i < ring.inflight.len() {
@@ -2065,7 +2089,7 @@ fn sim_enter(fd: i32, to_submit: u32, min_complete: u32, flags: u32, arg: usize)
         };
         events.push(KEv::Enter {
             fd,
-            to_submit,
+            to_submit: reported.unwrap_or(to_submit),
             min_complete,
             flags,
             timeout,
